@@ -407,7 +407,7 @@ def eng_prop(pid, fams, extra=(), nq=60, nt=900):
 
 eng_prop("C01", ["flow", "upg"])
 eng_prop("C02", ["flow", "poll"])
-eng_prop("C03", ["life"], nq=90)
+eng_prop("C03", ["life"], extra=("direct",), nq=90)
 eng_prop("C04", ["life"], nq=90)
 BEAT_CFG = ("SPECIFICATION Spec\nCONSTANTS PI = %d PT = %d MaxNow = %d Delays = %s\n"
             "INVARIANTS NoMissedPing NoMissedTimeout TimeoutExact AnsweredNeverClosed PingSchedule\nCHECK_DEADLOCK FALSE\n")
@@ -423,9 +423,9 @@ def c07(ctx):
                                     "'the server sends a ping' is timed by the packetCreate event of the ping"]
     return M.finish(ctx, rule="timed heartbeat model Beat.tla checked exhaustively over a grid of pong delays incl. the deadline; real sessions "
                     "(polling and websocket, revisions 3 and 4, 9 interval/timeout pairs) driven on the same grid under the virtual clock", evs=evs)
-eng_prop("C08", ["upg"], nq=90)
-eng_prop("C11", ["poll"], nq=90)
-eng_prop("C12", ["life", "poll"], extra=("grace",))
+eng_prop("C08", ["upg"], extra=("direct",), nq=90)
+eng_prop("C11", ["poll"], extra=("direct",), nq=90)
+eng_prop("C12", ["life", "poll"], extra=("grace", "direct"))
 eng_prop("C18", ["flow"], extra=("reent",), nq=90)
 
 
